@@ -1,77 +1,121 @@
 (* C12 — Hedge starts a bounded number of attempts and fails only when all have failed.
    Model: Model/Hedge.v (poll-granular model of Hedge::call / execute_with_hedging over a
-   tokio mpsc channel, spawned attempt tasks, time::sleep and a biased select!).
+   tokio mpsc channel, spawned attempt tasks, time::sleep and a biased select!, with an inner
+   service that may apply back-pressure to its clones).
    Every theorem is quantified over every configuration with max_hedged_attempts >= 1
-   (fixed, zero, immediate and per-attempt delays), over every list of events — polls of
-   any of the concurrent hedged calls in any order, cancellations, clock advances, inner
-   completions with ok / error / panic at any instant, before or after the attempt starts
-   (a call never completed = no Complete event) — and over every call index i.
+   (fixed, zero, immediate and per-attempt delays; clones ready at once or only when the
+   script says so), over every list of events — polls of any of the concurrent hedged calls
+   in any order, cancellations, clock advances, inner completions with ok / error / panic at
+   any instant, before or after the call is made (never completed = no Complete event),
+   clones becoming ready at any instant, in any order, or never — and over every call index i.
    Vocabulary (Model/Hedge.v, Proof/Hedge.v): for the call x = calls s i,
-     starts x  : start instants of its inner calls, attempt k at position k;
-     t0 x      : instant of its first poll;  dline x : deadline of the armed hedge timer;
-     queue x   : contents of the result channel (attempt, is_ok, value), FIFO;
+     launch x  : instant at which attempt task k ran for the first time, at position k (the
+                 primary: its inner call; a hedge: its clone is asked for readiness);
+     waiting x : hedge tasks suspended until their clone is ready;  rdy x k : clone k is ready;
+     starts x  : the inner calls actually made, in call order: (attempt task, instant);
+     t0 x      : instant of the first poll;  dline x : deadline of the armed hedge timer;
+     queue x   : contents of the result channel (attempt task, is_ok, value), FIFO;
      dlog x    : every message ever put into the channel, with its instant;
      cons x    : the messages the call future has taken out;  res x : (code, value, instant)
-     once resolved, code 1 = Ok, 3 = AllAttemptsFailed;  val i k : value carried by attempt k.
+     once resolved, code 1 = Ok, 3 = AllAttemptsFailed;  val i n : value of inner call n.
    Only statements, `exact`, and Print Assumptions. *)
 From TR Require Import Lib.Base Model.Hedge Proof.Hedge.
 
-(* At most max_hedged_attempts inner calls are ever started; and if the primary's success
-   was queued before the first hedge delay had elapsed, the primary is the only inner call
-   (in latency mode; in parallel mode all attempts start at once by design). *)
+(* At most max_hedged_attempts attempts are ever launched, and inner calls are made by
+   launched attempts only (one each, see C12_readiness); and if the primary's success was
+   queued before the first hedge delay had elapsed, no hedge is even launched: the primary's
+   is the only inner call (latency mode; in parallel mode all attempts start at once by design). *)
 Theorem C12_bounded_starts :
   forall (c : cfg) (evs : list ev) (i : nat), (1 <= maxa c)%nat ->
   Forall (fun s => let x := calls s i in
-     (length (starts x) <= maxa c)%nat /\
+     (length (starts x) <= length (launch x))%nat /\ (length (launch x) <= maxa c)%nat /\
      (forall v tau, latency_mode c = true -> In ((0%nat, true, v), tau) (dlog x) ->
-         tau < t0 x + delay c 1 -> length (starts x) = 1%nat))
-  (states (step_st c) init evs).
+         tau < t0 x + delay c 1 -> length (launch x) = 1%nat /\ length (starts x) = 1%nat))
+  (states (step_st c) (init c) evs).
 Proof. exact bounded_starts. Qed.
 Print Assumptions C12_bounded_starts.
 
-(* Latency mode: attempt k+1 starts no earlier than delay(k+1) after attempt k started.
-   Parallel mode (Fixed 0 / Immediate): once begun, all max attempts have started, all at
-   the instant of the first poll. The primary starts at the first poll. While a further
-   hedge is possible the timer is armed for exactly (latest start) + delay(next attempt),
-   and once that instant is reached the call future has been woken. *)
+(* Latency mode: attempt k+1 is launched no earlier than delay(k+1) after attempt k was
+   launched. Parallel mode (Fixed 0 / Immediate): once begun, all max attempts have been
+   launched, all at the instant of the first poll. The primary is launched, and makes its
+   inner call, at the first poll. Every inner call is made at or after the launch of its
+   attempt (hence no earlier than the configured delay after the previous attempt was
+   launched) — later only if its clone was not ready (C12_readiness, C12_spacing_prompt,
+   C12_ready_starts). While a further hedge is possible the timer is armed for exactly
+   (latest launch) + delay(next attempt), and once that instant is reached the call future
+   has been woken.
+   Under back-pressure the inner-call instants of consecutive attempts are NOT pairwise
+   spaced (two clones readied together start together); the launch instants are. *)
 Theorem C12_spacing :
   forall (c : cfg) (evs : list ev) (i : nat), (1 <= maxa c)%nat ->
   Forall (fun s => let x := calls s i in
-     (latency_mode c = true -> forall k, (S k < length (starts x))%nat ->
-          nth k (starts x) 0 + delay c (S k) <= nth (S k) (starts x) 0) /\
-     (latency_mode c = false -> (1 <= length (starts x))%nat ->
-          length (starts x) = maxa c /\ Forall (eq (t0 x)) (starts x)) /\
-     ((1 <= length (starts x))%nat -> nth 0 (starts x) 0 = t0 x) /\
-     (ph x = Latency -> (length (starts x) < maxa c)%nat ->
-          dline x = nth (length (starts x) - 1) (starts x) 0 + delay c (length (starts x)) /\
+     (latency_mode c = true -> forall k, (S k < length (launch x))%nat ->
+          nth k (launch x) 0 + delay c (S k) <= nth (S k) (launch x) 0) /\
+     (latency_mode c = false -> (1 <= length (launch x))%nat ->
+          length (launch x) = maxa c /\ Forall (eq (t0 x)) (launch x)) /\
+     ((1 <= length (launch x))%nat -> nth 0 (launch x) 0 = t0 x) /\
+     (forall k s0, In (k, s0) (starts x) ->
+          (k < length (launch x))%nat /\ nth k (launch x) 0 <= s0 <= now s) /\
+     (forall k s0, nth_error (starts x) 0 = Some (k, s0) -> k = 0%nat /\ s0 = t0 x) /\
+     (ph x = Latency -> (length (launch x) < maxa c)%nat ->
+          dline x = nth (length (launch x) - 1) (launch x) 0 + delay c (length (launch x)) /\
           (dline x <= now s -> woken x = true)))
-  (states (step_st c) init evs).
+  (states (step_st c) (init c) evs).
 Proof. exact spacing. Qed.
 Print Assumptions C12_spacing.
 
+(* Who waits: every launched attempt either waits for its clone or has made exactly one
+   inner call; a waiting attempt is a hedge whose clone is not ready. Without back-pressure
+   nobody ever waits and the inner calls are made in attempt order at the launch instants
+   (so C12_spacing speaks about the inner-call instants themselves). *)
+Theorem C12_readiness :
+  forall (c : cfg) (evs : list ev) (i : nat), (1 <= maxa c)%nat ->
+  Forall (fun s => let x := calls s i in
+     (length (starts x) + length (waiting x) = length (launch x))%nat /\
+     NoDup (map fst (starts x)) /\ NoDup (waiting x) /\
+     (forall k, In k (waiting x) ->
+        (1 <= k < length (launch x))%nat /\ rdy x k = false /\ ~ In k (map fst (starts x))) /\
+     (gated c = false -> waiting x = [] /\ length (starts x) = length (launch x) /\
+        forall n k s0, nth_error (starts x) n = Some (k, s0) -> k = n /\ s0 = nth n (launch x) 0))
+  (states (step_st c) (init c) evs).
+Proof. exact readiness. Qed.
+Print Assumptions C12_readiness.
+
 (* ... with equality under prompt polling: a poll at or after the timer's deadline that does
-   not resolve the call starts the next attempt at the instant of that poll; polled exactly
-   at the deadline (now s = dline x) that is start(n) + delay(n+1) by C12_spacing. *)
+   not resolve the call launches the next attempt at the instant of that poll — polled exactly
+   at the deadline (now s = dline x) that is launch(n) + delay(n+1) by C12_spacing — and if
+   that attempt's clone is ready its inner call is made at that same instant. *)
 Theorem C12_spacing_prompt :
   forall (c : cfg) (evs : list ev) (i : nat), (1 <= maxa c)%nat ->
-  let s := fold_left (step_st c) evs init in
+  let s := fold_left (step_st c) evs (init c) in
   let x := calls s i in
-  ph x = Latency -> (length (starts x) < maxa c)%nat -> dline x <= now s ->
+  ph x = Latency -> (length (launch x) < maxa c)%nat -> dline x <= now s ->
   r (snd (step c s (Poll i))) = 0 ->
   let x' := calls (step_st c s (Poll i)) i in
-  (length (starts x) < length (starts x'))%nat /\ nth (length (starts x)) (starts x') 0 = now s.
+  (length (launch x) < length (launch x'))%nat /\ nth (length (launch x)) (launch x') 0 = now s /\
+  (rdy x (length (launch x)) = true -> In (length (launch x), now s) (starts x')).
 Proof. exact spacing_prompt. Qed.
 Print Assumptions C12_spacing_prompt.
 
+(* a waiting attempt makes its inner call at the instant its clone becomes ready *)
+Theorem C12_ready_starts :
+  forall (c : cfg) (evs : list ev) (i k : nat), (1 <= maxa c)%nat ->
+  let s := fold_left (step_st c) evs (init c) in
+  In k (waiting (calls s i)) ->
+  In (k, now s) (starts (calls (step_st c s (Ready i k)) i)).
+Proof. exact ready_starts. Qed.
+Print Assumptions C12_ready_starts.
+
 (* A poll of an unresolved call returns Ok exactly when a success is queued, and then with
-   the first queued success (a timer that is due in the same poll does not get in the way:
-   results are taken first). What is queued is everything delivered and not yet taken, and
-   everything taken so far was an error, so that success is the earliest one delivered; a
-   non-empty queue has woken the call future. Hence the call resolves at the first poll at
-   which a success is queued. *)
+   the first queued success — whatever else is going on: a timer that is due in the same poll
+   does not get in the way (results are taken first), and neither do hedge attempts that are
+   still waiting for their clones to become ready (there is no hypothesis on waiting x). What
+   is queued is everything delivered and not yet taken, and everything taken so far was an
+   error, so that success is the earliest one delivered; a non-empty queue has woken the call
+   future. Hence the call resolves at the first poll at which a success is queued. *)
 Theorem C12_first_success_wins :
   forall (c : cfg) (evs : list ev) (i : nat), (1 <= maxa c)%nat ->
-  let s := fold_left (step_st c) evs init in
+  let s := fold_left (step_st c) evs (init c) in
   let x := calls s i in
   ph x = Latency \/ ph x = Drain ->
   let o := snd (step c s (Poll i)) in
@@ -91,50 +135,51 @@ Theorem C12_ok_is_earliest_success :
      forall v tau, res x = Some (1, v, tau) ->
        exists k t1, find it_ok (map fst (dlog x)) = Some (k, true, v) /\
                     In ((k, true, v), t1) (dlog x) /\ t1 <= tau /\ tau <= now s)
-  (states (step_st c) init evs).
+  (states (step_st c) (init c) evs).
 Proof. exact ok_is_earliest. Qed.
 Print Assumptions C12_ok_is_earliest_success.
 
-(* AllAttemptsFailed e at instant tau  ==>  max_hedged_attempts inner calls were started and
-   every one of them has finished without success: its error was delivered by tau, or (the
-   only other possibility) its task panicked. In latency mode every attempt has delivered an
-   error and e is the primary's error. In parallel mode and for a single attempt e is the
-   first error received (for a single attempt that is the primary's). *)
+(* AllAttemptsFailed e at instant tau  ==>  max_hedged_attempts attempts were launched, every
+   one of them has made its inner call (none is still waiting for readiness) and every inner
+   call has finished without success: its error was delivered by tau, or (the only other
+   possibility) its task panicked. In latency mode every attempt has delivered an error and e
+   is the primary's error. In parallel mode and for a single attempt e is the first error
+   received (for a single attempt that is the primary's). *)
 Theorem C12_all_failed_only_if :
   forall (c : cfg) (evs : list ev) (i : nat), (1 <= maxa c)%nat ->
   Forall (fun s => let x := calls s i in
      forall e tau, res x = Some (3, e, tau) ->
-       length (starts x) = maxa c /\
-       (forall k, (k < maxa c)%nat -> exists o, gate x k = Some o /\ o <> OOk /\
-           (o = OErr -> exists tk, In ((k, false, val i k), tk) (dlog x) /\ tk <= tau)) /\
+       length (launch x) = maxa c /\ length (starts x) = maxa c /\
+       (forall n, (n < maxa c)%nat -> exists o, gate x n = Some o /\ o <> OOk /\
+           (o = OErr -> exists k tk, In ((k, false, val i n), tk) (dlog x) /\ tk <= tau)) /\
        (latency_mode c = true -> (1 < maxa c)%nat ->
-           e = val i 0 /\ forall k, (k < maxa c)%nat -> gate x k = Some OErr) /\
+           e = val i 0 /\ forall n, (n < maxa c)%nat -> gate x n = Some OErr) /\
        (latency_mode c = false \/ maxa c = 1%nat ->
            exists k tk rest, dlog x = ((k, false, e), tk) :: rest) /\
        (maxa c = 1%nat -> e = val i 0))
-  (states (step_st c) init evs).
+  (states (step_st c) (init c) evs).
 Proof. exact all_failed_only_if. Qed.
 Print Assumptions C12_all_failed_only_if.
 
 (* Every result is accounted for: the log of delivered messages is exactly what the future
    has taken followed by what is still queued; each attempt delivers at most once, only
-   after it started, with its own scripted outcome and value; while the call is unresolved
-   every started attempt that has finished without panicking has delivered; what was taken
-   while unresolved were errors only; an unseen message has woken the future, and so has the
-   channel closing in the final loop. *)
+   after it made its inner call, with that call's scripted outcome and value; while the call
+   is unresolved every inner call that has finished without panicking has delivered; what
+   was taken while unresolved were errors only; an unseen message has woken the future, and
+   so has the channel closing in the final loop. *)
 Theorem C12_no_result_lost :
   forall (c : cfg) (evs : list ev) (i : nat), (1 <= maxa c)%nat ->
   Forall (fun s => let x := calls s i in
      map fst (dlog x) = cons x ++ queue x /\
      NoDup (map att (dlog x)) /\
      (forall m tau, In (m, tau) (dlog x) ->
-        (it_att m < length (starts x))%nat /\ gate x (it_att m) = Some (out_of (it_ok m)) /\
-        it_val m = val i (it_att m) /\ nth (it_att m) (starts x) 0 <= tau <= now s) /\
-     (pending x -> forall k o, (k < length (starts x))%nat -> gate x k = Some o -> o <> OPanic ->
-        In k (map att (dlog x))) /\
+        exists n s0, nth_error (starts x) n = Some (it_att m, s0) /\
+                     gate x n = Some (out_of (it_ok m)) /\ it_val m = val i n /\ s0 <= tau <= now s) /\
+     (pending x -> forall n k s0 o, nth_error (starts x) n = Some (k, s0) -> gate x n = Some o ->
+        o <> OPanic -> In k (map att (dlog x))) /\
      (pending x -> Forall (fun m => it_ok m = false) (cons x)) /\
      (pending x -> queue x <> [] -> woken x = true) /\
      (ph x = Drain -> closed x = true -> woken x = true))
-  (states (step_st c) init evs).
+  (states (step_st c) (init c) evs).
 Proof. exact no_result_lost. Qed.
 Print Assumptions C12_no_result_lost.
